@@ -100,21 +100,23 @@ Record state := mkState {
   s_log : list item;                            (* ghost: formula executions, most recent first *)
   s_maxdepth : nat;
   s_recalc : bool;
-  s_reent : bool }.                             (* ghost: some formula was entered while already executing *)
+  s_reent : bool;                               (* ghost: some formula was entered while already executing *)
+  s_taint : nat }.                              (* CallStack.taint: the first [s_taint] frames (from the bottom) run over a failure *)
 
-Definition upd_data st d := mkState (s_cells st) (s_refs st) d (s_inputs st) (s_nodes st) (s_edges st) (s_rnodes st) (s_redges st) (s_stack st) (s_refstack st) (s_rolled st) (s_err st) (s_log st) (s_maxdepth st) (s_recalc st) (s_reent st).
-Definition upd_inputs st i := mkState (s_cells st) (s_refs st) (s_data st) i (s_nodes st) (s_edges st) (s_rnodes st) (s_redges st) (s_stack st) (s_refstack st) (s_rolled st) (s_err st) (s_log st) (s_maxdepth st) (s_recalc st) (s_reent st).
-Definition upd_graph st n e := mkState (s_cells st) (s_refs st) (s_data st) (s_inputs st) n e (s_rnodes st) (s_redges st) (s_stack st) (s_refstack st) (s_rolled st) (s_err st) (s_log st) (s_maxdepth st) (s_recalc st) (s_reent st).
-Definition upd_rgraph st n e := mkState (s_cells st) (s_refs st) (s_data st) (s_inputs st) (s_nodes st) (s_edges st) n e (s_stack st) (s_refstack st) (s_rolled st) (s_err st) (s_log st) (s_maxdepth st) (s_recalc st) (s_reent st).
-Definition upd_stack st s := mkState (s_cells st) (s_refs st) (s_data st) (s_inputs st) (s_nodes st) (s_edges st) (s_rnodes st) (s_redges st) s (s_refstack st) (s_rolled st) (s_err st) (s_log st) (s_maxdepth st) (s_recalc st) (s_reent st).
-Definition upd_refstack st s := mkState (s_cells st) (s_refs st) (s_data st) (s_inputs st) (s_nodes st) (s_edges st) (s_rnodes st) (s_redges st) (s_stack st) s (s_rolled st) (s_err st) (s_log st) (s_maxdepth st) (s_recalc st) (s_reent st).
-Definition upd_rolled st r := mkState (s_cells st) (s_refs st) (s_data st) (s_inputs st) (s_nodes st) (s_edges st) (s_rnodes st) (s_redges st) (s_stack st) (s_refstack st) r (s_err st) (s_log st) (s_maxdepth st) (s_recalc st) (s_reent st).
-Definition upd_err st e := mkState (s_cells st) (s_refs st) (s_data st) (s_inputs st) (s_nodes st) (s_edges st) (s_rnodes st) (s_redges st) (s_stack st) (s_refstack st) (s_rolled st) e (s_log st) (s_maxdepth st) (s_recalc st) (s_reent st).
-Definition upd_log st l := mkState (s_cells st) (s_refs st) (s_data st) (s_inputs st) (s_nodes st) (s_edges st) (s_rnodes st) (s_redges st) (s_stack st) (s_refstack st) (s_rolled st) (s_err st) l (s_maxdepth st) (s_recalc st) (s_reent st).
-Definition upd_cells st c := mkState c (s_refs st) (s_data st) (s_inputs st) (s_nodes st) (s_edges st) (s_rnodes st) (s_redges st) (s_stack st) (s_refstack st) (s_rolled st) (s_err st) (s_log st) (s_maxdepth st) (s_recalc st) (s_reent st).
-Definition upd_refs st r := mkState (s_cells st) r (s_data st) (s_inputs st) (s_nodes st) (s_edges st) (s_rnodes st) (s_redges st) (s_stack st) (s_refstack st) (s_rolled st) (s_err st) (s_log st) (s_maxdepth st) (s_recalc st) (s_reent st).
-Definition upd_recalc st b := mkState (s_cells st) (s_refs st) (s_data st) (s_inputs st) (s_nodes st) (s_edges st) (s_rnodes st) (s_redges st) (s_stack st) (s_refstack st) (s_rolled st) (s_err st) (s_log st) (s_maxdepth st) b (s_reent st).
-Definition upd_reent st b := mkState (s_cells st) (s_refs st) (s_data st) (s_inputs st) (s_nodes st) (s_edges st) (s_rnodes st) (s_redges st) (s_stack st) (s_refstack st) (s_rolled st) (s_err st) (s_log st) (s_maxdepth st) (s_recalc st) b.
+Definition upd_data st d := mkState (s_cells st) (s_refs st) d (s_inputs st) (s_nodes st) (s_edges st) (s_rnodes st) (s_redges st) (s_stack st) (s_refstack st) (s_rolled st) (s_err st) (s_log st) (s_maxdepth st) (s_recalc st) (s_reent st) (s_taint st).
+Definition upd_inputs st i := mkState (s_cells st) (s_refs st) (s_data st) i (s_nodes st) (s_edges st) (s_rnodes st) (s_redges st) (s_stack st) (s_refstack st) (s_rolled st) (s_err st) (s_log st) (s_maxdepth st) (s_recalc st) (s_reent st) (s_taint st).
+Definition upd_graph st n e := mkState (s_cells st) (s_refs st) (s_data st) (s_inputs st) n e (s_rnodes st) (s_redges st) (s_stack st) (s_refstack st) (s_rolled st) (s_err st) (s_log st) (s_maxdepth st) (s_recalc st) (s_reent st) (s_taint st).
+Definition upd_rgraph st n e := mkState (s_cells st) (s_refs st) (s_data st) (s_inputs st) (s_nodes st) (s_edges st) n e (s_stack st) (s_refstack st) (s_rolled st) (s_err st) (s_log st) (s_maxdepth st) (s_recalc st) (s_reent st) (s_taint st).
+Definition upd_stack st s := mkState (s_cells st) (s_refs st) (s_data st) (s_inputs st) (s_nodes st) (s_edges st) (s_rnodes st) (s_redges st) s (s_refstack st) (s_rolled st) (s_err st) (s_log st) (s_maxdepth st) (s_recalc st) (s_reent st) (s_taint st).
+Definition upd_refstack st s := mkState (s_cells st) (s_refs st) (s_data st) (s_inputs st) (s_nodes st) (s_edges st) (s_rnodes st) (s_redges st) (s_stack st) s (s_rolled st) (s_err st) (s_log st) (s_maxdepth st) (s_recalc st) (s_reent st) (s_taint st).
+Definition upd_rolled st r := mkState (s_cells st) (s_refs st) (s_data st) (s_inputs st) (s_nodes st) (s_edges st) (s_rnodes st) (s_redges st) (s_stack st) (s_refstack st) r (s_err st) (s_log st) (s_maxdepth st) (s_recalc st) (s_reent st) (s_taint st).
+Definition upd_err st e := mkState (s_cells st) (s_refs st) (s_data st) (s_inputs st) (s_nodes st) (s_edges st) (s_rnodes st) (s_redges st) (s_stack st) (s_refstack st) (s_rolled st) e (s_log st) (s_maxdepth st) (s_recalc st) (s_reent st) (s_taint st).
+Definition upd_log st l := mkState (s_cells st) (s_refs st) (s_data st) (s_inputs st) (s_nodes st) (s_edges st) (s_rnodes st) (s_redges st) (s_stack st) (s_refstack st) (s_rolled st) (s_err st) l (s_maxdepth st) (s_recalc st) (s_reent st) (s_taint st).
+Definition upd_cells st c := mkState c (s_refs st) (s_data st) (s_inputs st) (s_nodes st) (s_edges st) (s_rnodes st) (s_redges st) (s_stack st) (s_refstack st) (s_rolled st) (s_err st) (s_log st) (s_maxdepth st) (s_recalc st) (s_reent st) (s_taint st).
+Definition upd_refs st r := mkState (s_cells st) r (s_data st) (s_inputs st) (s_nodes st) (s_edges st) (s_rnodes st) (s_redges st) (s_stack st) (s_refstack st) (s_rolled st) (s_err st) (s_log st) (s_maxdepth st) (s_recalc st) (s_reent st) (s_taint st).
+Definition upd_recalc st b := mkState (s_cells st) (s_refs st) (s_data st) (s_inputs st) (s_nodes st) (s_edges st) (s_rnodes st) (s_redges st) (s_stack st) (s_refstack st) (s_rolled st) (s_err st) (s_log st) (s_maxdepth st) b (s_reent st) (s_taint st).
+Definition upd_reent st b := mkState (s_cells st) (s_refs st) (s_data st) (s_inputs st) (s_nodes st) (s_edges st) (s_rnodes st) (s_redges st) (s_stack st) (s_refstack st) (s_rolled st) (s_err st) (s_log st) (s_maxdepth st) (s_recalc st) b (s_taint st).
+Definition upd_taint st n := mkState (s_cells st) (s_refs st) (s_data st) (s_inputs st) (s_nodes st) (s_edges st) (s_rnodes st) (s_redges st) (s_stack st) (s_refstack st) (s_rolled st) (s_err st) (s_log st) (s_maxdepth st) (s_recalc st) (s_reent st) n.
 
 (** * Association lists and sets *)
 Fixpoint lookup_cell (l : list (cid * cell)) (c : cid) : option cell :=
@@ -319,10 +321,17 @@ Definition rollback_frame (st : state) (line : nat) : state :=
   match s_stack st with
   | [] => st
   | i :: rest =>
-      let st1 := upd_rolled (upd_stack st rest) ((i, line) :: s_rolled st) in
+      (* every formula still executing runs over this failure from now on *)
+      let st1 := upd_rolled (upd_stack (upd_taint st (List.length rest)) rest) ((i, line) :: s_rolled st) in
       let st2 := if mem_node (node_of i) (s_nodes st1) then g_remove_nodes st1 [node_of i] else st1 in
       upd_refstack st2 (drop_refs (List.length rest) (s_refstack st2))
   end.
+
+(** [CallStack._pop_tainted]: a failure occurred under the formula on top of
+    the stack (it handled it): the value is returned but not kept, the node
+    leaves the graph as in a rollback; nothing is recorded for a traceback *)
+Definition pop_tainted (st : state) : state := upd_rolled (rollback_frame st 0) (s_rolled st).
+Definition tainted (st : state) : bool := Nat.leb (List.length (s_stack st)) (s_taint st).
 
 (** * Expression evaluation *)
 Definition arith (o : binop) (a b : val) : res val :=
@@ -460,6 +469,12 @@ with eval_formula (fuel : nat) (st : state) (cl : cell) (i : item) {struct fuel}
                              (s_reent st || mem_item i (s_stack st)) in
         match exec_body f st1 (snd i) [] (cl_body cl) (cl_body cl) 0 with
         | (Val v, st2, _) =>
+            if tainted st2 then
+              match v with
+              | VNone => if cl_allow_none cl then (Val v, pop_tainted st2) else (Err KNone, rollback_frame st2 0)
+              | _ => (Val v, pop_tainted st2)
+              end
+            else
             if cl_cached cl then
               match store_value st2 cl i v with
               | (Val v', st3) => (Val v', pop_frame st3)
@@ -518,7 +533,8 @@ Definition eval_top (fuel : nat) (st : state) (i : item) : res val * state :=
       match (if cl_cached cl then lookup_data (s_data st) i else None) with
       | Some v => (Val v, st)
       | None =>
-          let st0 := upd_rolled (upd_err st None) [] in
+          (* nothing is executing: CallStack.taint is 0 (kept so by pop / rollback; made explicit here) *)
+          let st0 := upd_taint (upd_rolled (upd_err st None) []) 0 in
           match eval_formula fuel st0 cl i with
           | (Val v, st1) => (Val v, st1)
           | (Err k, st1) =>
@@ -644,7 +660,7 @@ Definition step (fuel : nat) (st : state) (o : op) : out * state :=
   end.
 
 Definition init (cells : list (cid * cell)) (refs : list (rid * (option nat * val))) (maxdepth : nat) : state :=
-  mkState cells refs [] [] [] [] [] [] [] [] [] None [] maxdepth false false.
+  mkState cells refs [] [] [] [] [] [] [] [] [] None [] maxdepth false false 0.
 
 Fixpoint run (fuel : nat) (st : state) (ops : list op) : list out * state :=
   match ops with
